@@ -1,27 +1,47 @@
-"""debug runner: verify contracts whose key matches argv[1]"""
-import sys, json, importlib
+"""debug runner: verify contracts whose key contains argv[1] (one fresh process per contract, like ./check)
+usage: python3-vt pyvc/run1.py <substring> contracts.cNN [...]"""
+import sys, json, importlib, os
+import concurrent.futures as cf, multiprocessing as mp
 sys.path.insert(0, '/verif')
-from pyvc import spec as S
-from pyvc.driver import verify
-for m in sys.argv[2:]:
-    importlib.import_module(m)
-pat = sys.argv[1]
-for key, c in S.CONTRACTS.items():
-    if pat not in key or c.kind == 'assumed':
-        continue
-    r = verify(c)
-    print('==', key, 'paths', r.paths, 'cases', r.cases, 'solver %.2fs wall %.2fs' % (r.solver_time, r.wall), 'missing', r.missing)
+
+
+def work(args):
+    key, mods = args
+    sys.path.insert(0, '/verif')
+    from pyvc import spec as S
+    from pyvc.driver import verify
+    for m in mods:
+        importlib.import_module(m)
+    c = S.CONTRACTS[key]
+    r = verify(c, c.timeout or 10000)
+    lines = ['== %s paths %d cases %d solver %.2fs wall %.2fs missing %s' % (key, r.paths, r.cases, r.solver_time, r.wall, r.missing)]
     agg = {}
     for o in r.obligations:
         agg.setdefault((o.kind, o.label), []).append(o)
     for (k, l), obs in agg.items():
         vs = sorted({o.verdict for o in obs})
-        print('   ', k, l, vs, len(obs))
+        lines.append('    %s %s %s %d' % (k, l, vs, len(obs)))
         for o in obs:
             if o.verdict != 'proved':
-                print('        ', o.verdict, 'line', o.lineno, o.detail, json.dumps(o.model, default=str)[:400])
+                lines.append('         %s line %s %s %s' % (o.verdict, o.lineno, o.detail, json.dumps(o.model, default=str)[:400]))
                 break
     for u in r.unsupported[:5]:
-        print('    UNSUPPORTED', u)
+        lines.append('    UNSUPPORTED %s' % u)
     for e in r.errors[:3]:
-        print('    ERROR', e['why'], e.get('tb', '')[-600:])
+        lines.append('    ERROR %s %s' % (e['why'], e.get('tb', '')[-600:]))
+    return '\n'.join(lines)
+
+
+if __name__ == '__main__':
+    from pyvc import spec as S
+    mods = sys.argv[2:]
+    for m in mods:
+        importlib.import_module(m)
+    keys = [k for k, c in S.CONTRACTS.items() if sys.argv[1] in k and c.kind != 'assumed']
+    if os.environ.get('PYVC_DEBUG'):
+        for k in keys:
+            print(work((k, mods)))
+    else:
+        with cf.ProcessPoolExecutor(max_workers=8, mp_context=mp.get_context('spawn'), max_tasks_per_child=1) as pool:
+            for out in pool.map(work, [(k, mods) for k in keys]):
+                print(out)
